@@ -365,6 +365,11 @@ def mon_c02(net, obs, opts):
                 tol = rt + (cb_tol / max(want, 1e-12) if col == "lambda" else 0.0)
                 if col == "lambda" and min(res_) < 1e-9:
                     continue
+                if col == "lambda" and rt > 1e-3:
+                    # the reported friction factor belongs to the previous iterate; with a relative flow slack this large
+                    # (tiny flow at default tolerances) it says nothing, in particular near the singularity of Swamee-Jain
+                    obs.count("lambda_not_judged_flow_slack_too_large")
+                    continue
                 extra = float(np.mean(lam_spread)) if (col == "lambda" and lam_spread) else 0.0
                 pending.append((el, col, got, want, tol, extra, n))
 
